@@ -149,6 +149,9 @@ class Run:
         d = os.path.join(VERIF, 'replays')
         os.makedirs(d, exist_ok=True)
         p = os.path.join(d, f'{self.pid}-{self.seed}-{idx}.json')
+        obj = dict(obj, seed=int(self.seed), tier=self.tier,
+                   how_to_replay=f'VERIF_SEED={int(self.seed)} ./check {self.pid} --tier {self.tier} --replay <this file>  '
+                                 '(re-runs the deterministic generator of that seed and reports whether the same violation reappears)')
         with open(p, 'w') as f:
             json.dump(canon(obj), f, indent=1)
         return p
